@@ -153,7 +153,9 @@ pub fn last_panic() -> String {
 
 pub fn guard<T, F: FnOnce() -> T>(f: F) -> Result<T, String> {
     IN_GUARD.with(|g| g.set(g.get() + 1));
+    crate::watch::call_enter();
     let r = catch_unwind(AssertUnwindSafe(f));
+    crate::watch::call_leave();
     IN_GUARD.with(|g| g.set(g.get() - 1));
     match r {
         Ok(v) => Ok(v),
